@@ -53,6 +53,10 @@ def space(tier):
             # with a timestamp in the past)
             for lag in (0.3, 1.5):
                 units.append(({"program": p, "cfg": {"env_kinds": ["crash"], "timer_lag": lag}}, {"crash": 1, "total": 1}, cap))
+        if place == "alone":
+            # the history that holds the STARTED attempt arrives paginated (empty first page, empty middle page, ...)
+            units.append(({"program": p, "cfg": {"env_kinds": ["crash", "page"], "page_modes": [0, 1, 3, 5]}},
+                          {"crash": 1, "page": 1, "total": 2}, cap))
         if place in ("alone", "par"):
             for pol in ("low", "high"):
                 units.append(({"program": p, "cfg": {"env_kinds": ["crash"], "policy": pol}},
@@ -64,6 +68,6 @@ simcheck.install(globals(), "C04", [monitors.judge_c04], space,
                  "one at-most-once step x placements {alone, after a step, in a child context, in a parallel branch} "
                  "x retry strategies {none, table[1], table[1,2], table filtered to Boom (StepInterruptedError not "
                  "retried), default preset} x behaviours {ok, fail once, fail twice, always fail}; every crash point "
-                 "(pairs of crash points for the stand-alone placement; thorough: pairs everywhere); policies rtb/low/high; "
+                 "(pairs of crash points for the stand-alone placement; thorough: pairs everywhere); policies rtb/low/high; every pagination mode of the replayed history (stand-alone placement); "
                  "three programs whose branch is resumed in-process by its retry timer next to a running sibling, also with a "
                  "backend that flips PENDING to READY 0.3 / 1.5 s late")
